@@ -137,7 +137,8 @@ def unit_rules(ctx, rng, n):
                       {"type": "assignment", "attrs": {"equation": "q = A*B + t"}, "frequency": 1.5},
                       {"type": "assignment", "attrs": {"equation": "W = c*B"}, "frequency": "start"},
                       {"type": "ode", "attrs": {"equation": "c*A - W", "target": "W"}},
-                      {"type": "ode", "attrs": {"equation": "volume", "target": "q"}}]}
+                      {"type": "ode", "attrs": {"equation": "volume", "target": "q"}},
+                      {"type": "additive", "attrs": {"equation": "S = A + S + B"}, "frequency": "dt"}]}     # the target among its own sources
     M = build_model(spec)
     rules = M.__getstate__()[6]
     jobs, reals = [], []
@@ -164,6 +165,8 @@ def unit_rules(ctx, rng, n):
         k_ = i % len(rules)
         if k_ == 0:
             xe[S_] = x[A_] + x[B_] + x[A_]
+        elif k_ == 6 and rs:
+            xe[S_] = x[A_] + x[S_] + x[B_]
         elif k_ == 1 and rs:
             xe[S_] = p[q_] * x[A_] + ve * x[B_]
         elif k_ == 2 and t == 1.5:
